@@ -37,6 +37,7 @@ type Root struct {
 	dirs          *typeList
 	obj           interface{}
 	schema        *Schema
+	coerced       []func()
 	uuSchemaType  *uuSchema
 	AnyResolver   AnyResolver
 	subscriptions []*Subscription
@@ -512,6 +513,12 @@ func (root *Root) SDL(full bool, desc ...bool) string {
 func (root *Root) validate() error {
 	var errs []error
 
+	// Coerced directive argument values and defaults are only stored if the
+	// whole schema is valid, the nodes they are stored in are shared with the
+	// schema as it was before the load.
+	root.coerced = nil
+	defer func() { root.coerced = nil }()
+
 	for _, t := range root.types.list {
 		errs = append(errs, root.validateTypeName("type", t)...)
 		errs = append(errs, root.validateDirUses(t)...)
@@ -524,6 +531,9 @@ func (root *Root) validate() error {
 	}
 	if 0 < len(errs) {
 		return Errors(errs)
+	}
+	for _, store := range root.coerced {
+		store()
 	}
 	return nil
 }
@@ -614,12 +624,13 @@ func (root *Root) validateDirUse(where string, loc Location, du *DirectiveUse) (
 		// here. A Var is also allowed.
 		if _, ok := av.Value.(Var); !ok {
 			if co, _ := a.Type.(InCoercer); co != nil {
-				if v, err := co.CoerceIn(av.Value); err != nil {
+				if v, err := co.CoerceIn(copyValue(av.Value)); err != nil {
 					errs = append(errs, fmt.Errorf("%w at %d:%d", err, av.line, av.col))
 				} else {
 					// Might as well replace the coerced value since it is really
 					// what is needed.
-					av.Value = v
+					av := av
+					root.coerced = append(root.coerced, func() { av.Value = v })
 				}
 			}
 		}
